@@ -23,9 +23,9 @@ def cmdLifecycle (m : List (String × String)) : String :=
   | some c =>
     let o : LoopOutcome := ⟨getBool m "dialled", getBool m "hostclosed"⟩
     let w :=
-      if getBool m "noout" then legacyIn Rdpgw.Generated.Lifecycle.legacy o idle
+      if getBool m "noout" then legacyIn (Rdpgw.Generated.Lifecycle.legacy.getD currentLegacy) o idle
       else if getBool m "parked" then legacyOut idle
-      else life Rdpgw.Generated.Lifecycle.ws Rdpgw.Generated.Lifecycle.legacy t c o
+      else life (Rdpgw.Generated.Lifecycle.ws.getD currentWs) (Rdpgw.Generated.Lifecycle.legacy.getD currentLegacy) t c o
     s!"released={b01 (decide (Released w))} in={b01 w.inOpen} out={b01 w.outOpen} backend={b01 w.backendOpen} relay={b01 w.relay} handlers={w.handlers} reg={b01 w.registered} cached={b01 w.cached} ws={w.wsGauge} legacy={w.legacyGauge}"
 
 end Rdpgw.Oracle
